@@ -86,6 +86,17 @@ class RecPool(Pool):
         _record(self, None, args, kwargs)
 
 
+class RecPoolSized(RecPool):
+    """a pool that is a sized container (like a composite) and currently empty: it is falsy"""
+    def __len__(self):
+        return 0
+
+
+class RecDecoSized(RecDeco):
+    def __len__(self):
+        return len(self.target) if hasattr(self.target, "__len__") else 0
+
+
 class Site:
     """classes grouped below another class: dotted names with more than one attribute below the module"""
     Deco = RecDeco2
@@ -99,7 +110,7 @@ def extra_digest(content):
     return {"extra": content}
 '''
 MOD = "verifyaml_c05"
-CLASSES = {"VCtrl": "RecCtrl", "VDeco": "RecDeco", "VDeco2": "RecDeco2", "VPool": "RecPool"}
+CLASSES = {"VCtrl": "RecCtrl", "VDeco": "RecDeco", "VDeco2": "RecDeco2", "VPool": "RecPool", "VPoolSized": "RecPoolSized", "VDecoSized": "RecDecoSized"}
 NESTED = {"VCtrl": "Site.Inner.Ctrl", "VDeco2": "Site.Deco", "VPool": "Site.Inner.Pool"}  # other dotted names of the same classes
 _ready = False
 
@@ -139,11 +150,11 @@ def document(draw):
     elems = []
     for i in range(n):
         if i == n - 1:
-            cls = "VPool"
+            cls = draw(st.sampled_from(["VPool", "VPool", "VPool", "VPoolSized"]))
         elif i == 0 and draw(st.booleans()):
             cls = "VCtrl"
         else:
-            cls = draw(st.sampled_from(["VDeco", "VDeco2"]))
+            cls = draw(st.sampled_from(["VDeco", "VDeco2", "VDeco", "VDeco2", "VDecoSized"]))
         elems.append(draw(element(cls)))
     fail_at = None
     if draw(st.sampled_from([False, False, False, True])):
@@ -297,6 +308,7 @@ def run_case(doc) -> Result:
     forms = "".join({"map": "M", "seq": "S", "bare": "B", "type": "t"}[e["form"]] for e in doc["elems"])
     mixed = any(e["form"] == "type" for e in doc["elems"]) and any(e["form"] != "type" for e in doc["elems"])
     nested = any(has_tag(v) for e in doc["elems"] for v in e["args"] + [kv[1] for kv in e["kwargs"]])
+    res.cls("falsy-element:" + str(any(e["cls"].endswith("Sized") for e in doc["elems"])))
     res.cls("typed-yaml-values:" + str("!!binary" in text or "!!set" in text or "!!omap" in text or "!!pairs" in text),
             "nested-type-name:" + str(any(e.get("nested_name") for e in doc["elems"])))
     res.cls("n:%d" % n, "mixed:" + str(mixed), "nested-tags:" + str(nested), "fail:" + str(doc["fail_at"] is not None),
